@@ -636,7 +636,13 @@ func execA(c caseA) (v verdict, err error) {
 			bad.DeclaredLen = &full
 		}
 	}
-	if c.Body == "te" && (strings.HasSuffix(bad.Path, "/") || (!strings.HasPrefix(entry.Name, "PutObject") && !strings.HasPrefix(entry.Name, "UploadPart"))) {
+	fileUpload := bad.Method == "PUT" && strings.Count(strings.Trim(bad.Path, "/"), "/") >= 1 && !strings.HasSuffix(bad.Path, "/")
+	for _, kv := range bad.Query {
+		if kv.K == "tagging" || kv.K == "acl" || kv.K == "retention" || kv.K == "legal-hold" {
+			fileUpload = false // (a document about the object, not its content)
+		}
+	}
+	if c.Body == "te" && !fileUpload && (strings.HasSuffix(bad.Path, "/") || (!strings.HasPrefix(entry.Name, "PutObject") && !strings.HasPrefix(entry.Name, "UploadPart"))) {
 		// (uploads of file objects need the length up front - the gateway answers a valid one without it with an
 		// error as well, nothing to learn there)
 		// the same bytes without an announced length: HTTP chunked transfer coding (a handler that decides by the
